@@ -264,7 +264,21 @@ def run(ctx, run):
             n_sites["chsw"] += 1
             need(run, f, i, "RF-DOM", "RF-DOM:vbi_decode:chsw_reset", "countdown-driven channel reset",
                  [("countdown pending (chswcd > 0)", lambda a: a.cmp_const(">", F_CD, 0)),
-                  ("countdown decremented to zero (--chswcd == 0)", lambda a: a.cmp_const("==", F_CD, 0) and a.L.incr == "--")])
+                  ("countdown decremented to zero (--chswcd == 0)",
+                   lambda a, f=f: a.cmp_const("==", F_CD, 0) and (a.L.incr == "--" or _decremented_before(f, a, F_CD)))])
+    # the countdown is armed by a frame that came too early or too late - measured against the previous frame, so
+    # only when there was one (vbi->time > 0): the first frame of a decoder is not a dropped frame
+    n_arm = 0
+    for bid, i in flow.all_events(f):
+        for lhs, var, op, rhs in flow.stores(f, i):
+            if lhs is None or rhs is None or op != "=":
+                continue
+            le = f.exprs[ex.skip(f, lhs)]
+            if le["k"] == "mem" and "%s.%s" % (le.get("in"), le["member"]) == F_CD and (ex.const(f, rhs) or 0) > 1:
+                n_arm += 1
+                need(run, f, i, "RF-DOM", "RF-DOM:vbi_decode:countdown-armed", "arming of the channel switch countdown",
+                     [("a previous frame exists (vbi->time > 0)", lambda a: a.cmp_const(">", "vbi_decoder.time", 0))])
+    run.floor("stores arming the channel switch countdown in vbi_decode", n_arm, 1)
     f = P.need("store_lop", "src/packet.c")
     for bid, i in flow.all_events(f):
         e = f.exprs[i]
@@ -469,6 +483,23 @@ def _activation_only(ctx, run):
                           "announced again, and the next station change no longer drops the cache" % ex.pretty(f, i)[:60],
                           ex.loc(f, i), witness={"dominating": [repr(a) for a in ats]})
     run.floor("reset actions in vbi_event_enable", n, 5)
+
+
+def _decremented_before(f, a, field):
+    """The atom `field == 0` is tested on the value a dominating (or same-block, earlier) `field -= 1` / `--field` left."""
+    if a.src is None:
+        return False
+    for bid, i in flow.all_events(f):
+        for lhs, var, op, rhs in flow.stores(f, i):
+            if lhs is None:
+                continue
+            le = f.exprs[ex.skip(f, lhs)]
+            if not (le["k"] == "mem" and "%s.%s" % (le.get("in"), le["member"]) == field):
+                continue
+            dec = op == "--" or (op == "-=" and ex.const(f, rhs) == 1)
+            if dec and (bid == a.src or flow.dominates(f, bid, a.src)):
+                return True
+    return False
 
 
 def _call_letters_rearm(ctx, run):
